@@ -715,6 +715,45 @@ def make_sparse_script(rng, name, kind=None):
     return f"=== {name} plan={plan} nkeys={nb}\n" + "\n".join(g.lines) + "\n"
 
 
+def make_empty_refill_script(rng, name, table=False, kind=None):
+    """C13: churn that empties the table completely again and again by INDIVIDUAL removals (the last removal
+    happens on a table full of removed-slot markers), then refills it with other keys and looks up absent
+    ones: the live size never exceeds n, nothing is reserved, the accounting must survive len() == 0."""
+    kind = kind or (rng.choice(["table-plain", "table-drop"]) if table else rng.choice(["map-drop", "map-plain"]))
+    plan = rng.choice(["seq", "seq", "zero", "lowpos", "wrap", "sametag", "mix"])
+    n = rng.choice([7, 14, 20, 28, 40, 56])
+    nk = 3 * n + 8
+    salt = rng.getrandbits(32)
+    lines = [f"kind {kind}"] + [f"hash {k} {plan_hash(plan, k, rng, salt)}" for k in range(nk)]
+    stamp = [0]
+    def st():
+        stamp[0] += 1
+        return stamp[0]
+    base = 0
+    for rnd in range(rng.choice([2, 3, 4])):
+        keys = [(base + j) % nk for j in range(n)]
+        for k in keys:
+            lines.append(f"tinsertunique {k} {st()} {k % 97}" if table else f"insert {k} {st()} {k % 97}")
+        order = list(keys)
+        if rng.random() < 0.5:
+            rng.shuffle(order)
+        for k in order:
+            lines.append(f"tfindentryremove {k} id {k}" if table else rng.choice([f"remove {k}", f"entry_remove {k} {st()}"]))
+        lines += (["tlen", "tcapacity"] if table else ["len", "capacity"])
+        base += n // 2 + 1
+        # refill with (mostly) other keys; absent lookups must terminate
+        for j in range(rng.choice([n // 4 + 1, n // 2 + 1, n])):
+            k = (base + n + j) % nk
+            lines.append(f"tentryorinsert {k} {st()} 5" if table else f"entry_or_insert {k} {st()} 5")
+        for k in rng.sample(range(nk), 6):
+            lines.append(f"tfind {k} id {k}" if table else f"get {k}")
+        lines += (["tlen", "titer"] if table else ["len", "iter"])
+        for j in range(n):
+            k = (base + n + j) % nk
+            lines.append(f"tfindentryremove {k} id {k}" if table else f"remove {k}")
+    return f"=== {name} plan={plan} nkeys={nk}\n" + "\n".join(lines) + "\n"
+
+
 def make_guard_script(rng, name, table=False, kind=None):
     """The unwind guard of the in-place rehash, deterministically: identity-like hashes, a table filled to
     exact capacity with the LAST bucket occupied (a key whose home is buckets-1) and bucket 0 occupied,
